@@ -717,6 +717,14 @@ func errorsUnderTest() map[string]error {
 		"coded-nil-cause":     drpcerr.WithCode(&wrapCause{"no cause", nil}, 9),
 		"cause-of-nil-unwrap": &wrapCause{"outer", &wrap{"no inner", nil}},
 		"cause-then-code-str": &wrapCause{"outer", codeStr{"inner", "not_found"}},
+		// errors that mean something special elsewhere in the library: here they are failures like any other
+		"io-eof":              io.EOF,
+		"wrapped-io-eof":      fmt.Errorf("recv: %w", io.EOF),
+		"errs-wrapped-io-eof": errs.Wrap(io.EOF),
+		"unexpected-eof":      io.ErrUnexpectedEOF,
+		"context-canceled":    context.Canceled,
+		"deadline-exceeded":   context.DeadlineExceeded,
+		"closed-pipe":         io.ErrClosedPipe,
 		// error values of types that == cannot compare, nested in their own kind
 		"combine-flat":            errs.Combine(base, errors.New("second")),
 		"combine-nested":          errs.Combine(errs.Combine(base, errors.New("rollback")), errors.New("close")),
